@@ -23,6 +23,11 @@ type reachCursor struct {
 	adjacentIdx int
 	reach       cardinality.Duplex[uint64]
 	ancestor    *reachCursor
+
+	// incomplete is set when the reach bitmap is known to be missing members: an adjacent component had
+	// already been visited by the running search and its own reach was no longer available to merge in.
+	// Incomplete reach must never be cached.
+	incomplete bool
 }
 
 // Complete merges the reach bitmap of this cursor into its ancestor’s bitmap.
@@ -31,6 +36,11 @@ type reachCursor struct {
 func (s *reachCursor) Complete() {
 	if s.ancestor != nil {
 		s.ancestor.reach.Or(s.reach)
+
+		// The root cursor's reach doubles as the visited set of the search and is always complete
+		if s.incomplete && s.ancestor.ancestor != nil {
+			s.ancestor.incomplete = true
+		}
 	}
 }
 
@@ -226,7 +236,9 @@ func (s *ReachabilityCache) componentReachDFS(component uint64, direction graph.
 			nextCursor.Complete()
 
 			// Update the cache with this component's reach
-			s.cacheComponentReach(nextCursor, direction)
+			if !nextCursor.incomplete {
+				s.cacheComponentReach(nextCursor, direction)
+			}
 		} else if rootCursor.reach.CheckedAdd(nextAdjacentComponent) {
 			// This is a component not yet visited, check if it is cached. If it
 			// is cached, Or(...) its reach and if not traverse into it.
@@ -234,6 +246,15 @@ func (s *ReachabilityCache) componentReachDFS(component uint64, direction graph.
 				nextCursor.reach.Or(cachedReach)
 			} else {
 				stack.PushBack(s.newReachCursor(nextAdjacentComponent, direction, nextCursor))
+			}
+		} else if nextCursor != rootCursor {
+			// The adjacent component was already covered by this search, so it is not descended into again, but
+			// everything it reaches is also reachable from this component. Merge its reach if it is still
+			// cached; otherwise this cursor's reach is only partial and must not be cached.
+			if cachedReach, cached := s.cachedComponentReach(nextAdjacentComponent, direction); cached {
+				nextCursor.reach.Or(cachedReach)
+			} else {
+				nextCursor.incomplete = true
 			}
 		}
 	}
